@@ -54,8 +54,8 @@ impl VplsNlri {
     pub(super) fn compose<Target: OctetsBuilder>(&self, target: &mut Target)
         -> Result<(), Target::AppendError> {
         // XXX see comment above in compose_len.
-        let len = 17;
-        target.append_slice(&[len])?;
+        let len: u16 = 17;
+        target.append_slice(&len.to_be_bytes())?;
         target.append_slice(self.rd.as_ref())?;
         target.append_slice(&self.ve_id.to_be_bytes())?;
         target.append_slice(&self.ve_block_offset.to_be_bytes())?;
